@@ -160,6 +160,23 @@ def tree_session(run, rng, k, quick):
                     S.request(req, 'sel', subsel, label='with-others+subsamples')
                 else:
                     S.request(req, label='with-others')
+            # every derived column with each column it is computed from, both orders (deterministic)
+            import re as _re
+
+            for c in [n for n in names if n.startswith(DERIVED_PREFIXES)]:
+                m = _re.search(r'(_(?:L2)?com)$', c)
+                if not m:
+                    continue
+                com = m[1]
+                bases = []
+                if c.startswith(('sigmavM', 'sigmavrad', 'sigmavtan')):
+                    bases = ['sigmav3d' + com] + (['sigmavMin' + com, 'sigmavMaj' + com] if c.startswith('sigmavMid') else [])
+                elif c.startswith(('r1', 'r2', 'r3', 'r5', 'r6', 'r7', 'r9', 'rvcirc', 'sigmar_L', 'sigmar_c')):
+                    bases = ['r100' + com]
+                for b in bases:
+                    if b in names and b != c:
+                        S.request([c, b], label='derived-with-base')
+                        S.request([b, c], label='base-with-derived')
             # derived columns paired with every other column (ordered pairs)
             derived = [n for n in names if n.startswith(DERIVED_PREFIXES)]
             pairs = [(c, d) for c in derived for d in names if d != c]
